@@ -18,7 +18,7 @@ stdout: JSON list of observations (same order).
 No pydoctor source is modified; everything is patched from here."""
 import json, os, re, select, signal, subprocess, sys, time
 
-LIMIT = float(os.environ.get('C08_CALL_LIMIT', '30'))
+LIMIT = float(os.environ.get('C08_CALL_LIMIT', '20'))
 
 
 # ------------------------------------------------------------------------------------------------ child side
